@@ -142,8 +142,16 @@ def _spec_tail(s, P, fs, ns):
             P.add('apply_anc_state_misid', fs, s.choice([0.0, 0.02, 0.3]))
         else:
             data = P.add('mk_spectrum', s.randint(0, 5), [n + 1 for n in ns], s.choice([0.0, 0.2]), s.chance(0.3))
-            P.add(s.choice(['ll', 'll_multinom', 'll_per_bin', 'optimal_sfs_scaling', 'optimally_scaled_sfs',
-                            'linear_Poisson_residual', 'Anscombe_Poisson_residual']), fs, data)
+            lop = s.choice(['ll', 'll_multinom', 'll_per_bin', 'optimal_sfs_scaling', 'optimally_scaled_sfs',
+                            'linear_Poisson_residual', 'Anscombe_Poisson_residual'])
+            P.add(lop, fs, data)
+            if s.chance(0.3):
+                # the caller edits its data in place (one more bin masked, or rescaled) and evaluates again on the same object
+                if s.chance(0.5):
+                    P.add('S.mask_entry', data, s.randint(1, 30))
+                else:
+                    P.add('S.imul', data, 2.0)
+                P.add(lop, fs, data)
 
 
 def g_regrid(s, P):
@@ -439,8 +447,11 @@ def g_lowpass(s, P):
             P.add('LP.calling_error_matrix', cov, nsub, F)
         elif r < 0.85:
             P.add('LP.probability_of_no_call', cov, nseq, F)
-        else:
+        elif r < 0.93:
             P.add('LP.probability_enough_individuals_covered', cov, nseq, nsub)
+        else:
+            g = P.add('mk_genotypes', s.randint(0, 3), 12, nseq // 2 + 2)
+            P.add('LP.subsample_genotypes', g, nsub)
     return P
 
 
@@ -648,13 +659,14 @@ def g_inbreeding(s, P):
     pts = s.choice([8, 10])
     xx = P.add('grid', pts)
     phi = P.add('phi_1D', xx)
+    W = (lambda v: {'$arr': v}) if s.chance(0.4) else (lambda v: v)
     if s.chance(0.5):
         n = s.choice([4, 8])
-        P.add('from_phi_inbreeding', phi, [n], T(xx), [s.choice([0.2, 0.6])], [s.choice([2, 4])])
+        P.add('from_phi_inbreeding', phi, [n], T(xx), W([s.choice([0.2, 0.6, 1.0])]), [s.choice([2, 4])])
     else:
         phi = P.add('phi_1D_to_2D', xx, phi)
         phi = P.add('Integration.two_pops', phi, xx, 0.02, 1.0, 2.0)
-        P.add('from_phi_inbreeding', phi, [4, 4], T(xx, xx), [s.choice([0.2, 0.6]), s.choice([0.1, 0.5])], [2, s.choice([2, 4])])
+        P.add('from_phi_inbreeding', phi, [4, 4], T(xx, xx), W([s.choice([0.2, 0.6, 1.0]), s.choice([0.1, 0.5])]), [2, s.choice([2, 4])])
     return P
 
 
@@ -691,8 +703,17 @@ DEMES_CASES = [
 ]
 
 
+ANCIENT_CASES = [('split2', ['A', 'B'], [2, 2], [0, 50]), ('split2_mig', ['zeta', 'alpha'], [2, 2], [30, 0]), ('tree3', ['X1', 'Y'], [2, 2], [0, 40]),
+                 ('branch', ['main', 'side'], [2, 2], [20, 0]), ('pulse', ['north', 'east'], [2, 2], [0, 10])]
+
+
 def g_demes(s, P):
     for _ in range(s.randint(1, 2)):
+        if s.chance(0.2):
+            # ancient samples: the same lists are handed over twice
+            gid, sd, ns, st = s.choice(ANCIENT_CASES)
+            P.add('from_demes', gid, sd, ns, s.choice([6, 8]), st)
+            continue
         gid, sd, ns = s.choice(DEMES_CASES)
         pts = 6 if len(sd) >= 4 else s.choice([6, 8])
         fs = P.add('from_demes', gid, sd, ns, pts)
